@@ -196,7 +196,7 @@ def wrap_route_cases(key, d, cfg, kind, rng=None, n=1, **extra):
         c = copy.deepcopy(cfg)
         if text is not None:
             c['text'] = copy.deepcopy(text)
-        tk = 'none' if text is None else 'empty' if not ''.join(text).strip() else 'list' if isinstance(text, list) else 'string'
+        tk = 'none' if text is None else 'given-but-false' if not text else 'blank-lines-only' if not ''.join(text).strip() else 'list' if isinstance(text, list) else 'string'
         out.append(dict(extra, kind='%s:wrap:%s' % (kind, shape), a=a, b=b, config=c, route=route, text_kind=tk))
     return out
 
@@ -976,7 +976,11 @@ def check_case(c):
     call = None if route == 'expand' else route_runner(route, c['config'])
     rb = None
     if route in DEFINITION_FIRST and c.get('equal') and c.get('b') is not None:
-        rb = route_call(call, c['b'])
+        # under the same observer: this form uses the snippet table as well (termination and the nesting bound hold for it too)
+        rb, depth_b = expand_with_depth(c['b'], c['config'], call)
+        if rb[0] in ('recursion', 'too-deep', 'timeout'):
+            return ('along the call route %r, definition-in-place form %r: resolution does not terminate within the bound (%s, nesting depth '
+                    'reached %d)' % (route, c['b'], rb[0], depth_b)), rb, depth_b
     ra, depth = expand_with_depth(c['a'], c['config'], call)
     if ra[0] == 'recursion':
         return 'resolution does not terminate (RecursionError)', ra, depth
